@@ -60,3 +60,10 @@ Print Assumptions C09_reachable_unserved_exact.
 Theorem C09_reachable_costs_exact : forall nw, stmt_reachable_costs nw.
 Proof. exact reachable_costs. Qed.
 Print Assumptions C09_reachable_costs_exact.
+
+(** per-depot spawn counts and balances: for every reachable schedule the depot-usage map holds, per depot and type,
+    exactly the real vehicles of that type whose tour starts (resp. ends) there, without duplicates *)
+From RS Require Import SchedStruct SchedUsageFacts.
+Theorem C09_reachable_depot_usage_exact : forall nw, stmt_reachable_usage nw.
+Proof. exact reachable_usage. Qed.
+Print Assumptions C09_reachable_depot_usage_exact.
